@@ -65,6 +65,7 @@ def run_lemma(repo, specs, lem, prune=False):
     t0 = time.time()
     try:
         ex = Exec(cx)
+        ex.reveals = set(lem.reveals)
         env = {n: cx.fresh(n, t) for n, t in lem.params}
         st = State(env, {}, spec=True)
         for n, t in lem.params:
